@@ -3,13 +3,10 @@ import itertools
 from .common import load_corpus, rbytes
 from . import scriptgen as G
 
-MAKE_TARGETS = ['Proofs/ScriptEval.vo']
+MAKE_TARGETS = ['Proofs/ScriptFull.vo']
 TIES = []
 ALLOWED_AXIOMS = []
-PARTIAL = ['C06_eval_partial_nosig / C06_step_partial_nosig: the simulation MODEL = SPEC is proved for every script whose '
-           'operations include no CHECKSIG / CHECKSIGVERIFY / CHECKMULTISIG / CHECKMULTISIGVERIFY; for those four opcodes '
-           '(signature removal by FindAndDelete, the multisig walk, NULLDUMMY, keys feeding the op counter) and for VerifyScript '
-           '(P2SH, CLEANSTACK) agreement of MODEL and SPEC is covered by the correspondence run, not yet by a theorem']
+PARTIAL = []
 ASSUMPTIONS = ['the signature-check oracle is arbitrary: IMPL runs with scripteval._CheckSig replaced by a recording stub '
                '(empty signature -> False, else a fixed pseudo-random function); the real _CheckSig is covered by C03/C05/C13',
                'hashlib sha1/sha256 and the pure-Python ripemd160 are represented by coq/Common/Hash.v in the run']
